@@ -459,6 +459,35 @@ pub fn gen_c09_texts(tier: &str, seed: u64) -> Vec<String> {
             v.extend(exact_len(pool, 6));
         }
     }
+    // 2b. characters a "lenient" rewrite is likely to special-case (BOM, Unicode white space other
+    //     than space/tab/CR/LF, NUL, DEL): at every position of every short string over the core
+    //     classes, and at the joints of realistic fields
+    let core = ["a", " ", ",", "|", "(", "\n", "$"];
+    for base in strings_upto(&core, if thorough { 3 } else { 2 }) {
+        let chars: Vec<char> = base.chars().collect();
+        for odd in crate::deb::ODD_CHARS.iter() {
+            for i in 0..=chars.len() {
+                let mut t: String = chars[..i].iter().collect();
+                t.push_str(odd);
+                t.extend(chars[i..].iter());
+                v.push(t);
+            }
+        }
+    }
+    for odd in crate::deb::ODD_CHARS.iter() {
+        for t in [
+            format!("{}a (>= 1), b", odd),
+            format!("a{}(>= 1), b", odd),
+            format!("a (>={}1), b", odd),
+            format!("a (>= 1),{}b", odd),
+            format!("a (>= 1), b{}", odd),
+            format!("a [{}i386] <{}x>", odd, odd),
+            format!("a |{}b,\n{}c", odd, odd),
+            format!("${{{}x}}, a", odd),
+        ] {
+            v.push(t);
+        }
+    }
     // 3. seeded random well-formed fields, truncated at every position, plus one mutation each
     let mut rng = Rng::new(seed);
     let n = if thorough { 2000 } else { 300 };
